@@ -185,3 +185,88 @@ async fn a_snapshot_token_does_not_replace_read_history() {
         bound.first_result()
     );
 }
+
+const QUERY: &str = r#"FIND(?c.name) WHERE { ?c CONCEPT {type: "Person"} } ORDER BY ?c.name ASC"#;
+
+async fn reads(nexus: &CognitiveNexus, auth: AuthContext) -> bool {
+    run_as(&nexus.session(auth), QUERY).await.status == TopLevelStatus::Succeeded
+}
+
+/// A suspended (or revoked) intermediate delegate holds nothing, so what it re-delegated
+/// confers nothing - whether the sub-delegate's session names the chain or not.
+#[tokio::test]
+async fn a_suspended_intermediate_delegates_re_delegation_stops_with_it() {
+    let nexus = stocked("gov_suspended_intermediate").await;
+    let owner = nexus.system_session();
+    let made = run_as(&owner, r#"CREATE CONCEPT ?c { TYPE "Person" NAME "Ada" }"#).await;
+    assert_eq!(made.status, TopLevelStatus::Succeeded);
+
+    let gov = nexus.governance();
+    let lead = agent(gov, "kip:principal:team-lead").await;
+    let mid = agent(gov, "kip:principal:contractor").await;
+    let bot = agent(gov, "kip:principal:contractors-bot").await;
+    gov.create_grant(
+        GrantDraft {
+            space_id: DEFAULT_SPACE.into(),
+            grantee_principal: lead.clone(),
+            actions: vec!["read".into()],
+            delegation_allowed: true,
+            ..Default::default()
+        },
+        SYSTEM_PRINCIPAL,
+    )
+    .await
+    .unwrap();
+    let first = gov
+        .create_delegation(
+            DelegationDraft {
+                space_id: DEFAULT_SPACE.into(),
+                delegator_principal: lead.clone(),
+                delegate_principal: mid.clone(),
+                actions: vec!["read".into()],
+                may_redelegate: true,
+                ..Default::default()
+            },
+            &lead,
+        )
+        .await
+        .unwrap();
+    let second = gov
+        .create_delegation(
+            DelegationDraft {
+                space_id: DEFAULT_SPACE.into(),
+                delegator_principal: mid.clone(),
+                delegate_principal: bot.clone(),
+                actions: vec!["read".into()],
+                parent_delegation: delegation_id(first._id),
+                ..Default::default()
+            },
+            &mid,
+        )
+        .await
+        .unwrap();
+    let chain = vec![delegation_id(first._id), delegation_id(second._id)];
+
+    assert!(reads(&nexus, AuthContext::principal(&mid)).await);
+    assert!(reads(&nexus, AuthContext::principal(&bot)).await);
+    assert!(reads(&nexus, AuthContext::principal(&bot).with_delegation_chain(chain.clone())).await);
+
+    for gone in [status::SUSPENDED, status::REVOKED] {
+        gov.set_principal_status(&mid, gone, SYSTEM_PRINCIPAL)
+            .await
+            .unwrap();
+        assert!(!reads(&nexus, AuthContext::principal(&mid)).await, "{gone}");
+        assert!(
+            !reads(&nexus, AuthContext::principal(&bot)).await,
+            "the contractor is {gone} and holds nothing, yet the bot it delegated to still reads"
+        );
+        assert!(
+            !reads(&nexus, AuthContext::principal(&bot).with_delegation_chain(chain.clone())).await,
+            "the contractor is {gone}, yet the bot's session naming the chain through it still reads"
+        );
+        gov.set_principal_status(&mid, status::ACTIVE, SYSTEM_PRINCIPAL)
+            .await
+            .unwrap();
+        assert!(reads(&nexus, AuthContext::principal(&bot)).await);
+    }
+}
